@@ -153,15 +153,19 @@ fn main() {
         "replay" => {
             let shapes: Vec<&str> = args[4].split(',').collect();
             let settings: Vec<&str> = args[5].split(',').collect();
-            let rotate = args[6] == "rotate";
+            // all: every applicable shape x every setting; shapes: every applicable shape, settings rotate;
+            // rotate: one run per behaviour, shape and setting rotate
+            let mode = args[6].as_str();
             let skip: usize = if args.len() > 7 { args[7].parse().unwrap_or(0) } else { 0 };
             let mut k = 0usize;
             for (bi, beh) in behs.iter().enumerate() {
-                for (si, shape) in shapes.iter().enumerate() {
-                    if (*shape == "ez") != beh.zst {
-                        continue;
-                    }
-                    let sets: Vec<&str> = if rotate { vec![settings[(bi + si) % settings.len()]] } else { settings.clone() };
+                let applicable: Vec<&str> = shapes.iter().copied().filter(|s| (*s == "ez") == beh.zst).collect();
+                if applicable.is_empty() {
+                    continue;
+                }
+                let chosen: Vec<&str> = if mode == "rotate" { vec![applicable[bi % applicable.len()]] } else { applicable.clone() };
+                for (si, shape) in chosen.iter().enumerate() {
+                    let sets: Vec<&str> = if mode == "all" { settings.clone() } else { vec![settings[(bi / 2 + si) % settings.len()]] };
                     for set in sets {
                         k += 1;
                         if k <= skip {
